@@ -17,7 +17,7 @@ METHODS = ["turchin", "edit-dist", "sca", "lexstat", "stub"]
 LINKAGES = ["upgma", "single", "complete"]
 COQ_METH = {"upgma": "Upgma", "single": "Single", "complete": "Complete"}
 
-LANGS = ["Lb", "la", "Lc", "ld", "E", "lB", "Ab"]
+LANGS = ["Lb", "la", "Lc", "ld", "E", "lB", "Ab", "Mx", "my", "Na", "ob", "Pq", "qr", "Zz"]
 CONCEPTS = ["hand", "Foot", "eye", "nose", "Sun", "foot", "Eye"]
 CONS = ["p", "t", "k", "b", "d", "g", "m", "n", "s", "z", "l", "r", "h", "j", "w", "tʰ", "ts", "ʃ", "ŋ", "x"]
 VOWS = ["a", "e", "i", "o", "u", "aː", "ə"]
@@ -44,13 +44,16 @@ def gen_word(rng):
 def gen_case(rng, methods=METHODS, max_lang=5, max_conc=5):
     nl = rng.randint(1, max_lang)
     nc = rng.randint(1, max_conc)
+    if rng.random() < (0.3 if set(methods) <= {"sca", "lexstat"} else 0.08):
+        nl = rng.randint(10, 12)          # language ids with two digits ("10", "11", "12")
+        nc = rng.randint(1, 2)
     langs = rng.sample(LANGS, nl)
     concs = rng.sample(CONCEPTS, nc)
     pool = [gen_word(rng) for _ in range(rng.randint(1, 5))]
     cells = []
     for c in concs:
         for l in langs:
-            k = rng.choice([0, 1, 1, 1, 1, 2, 2, 3])          # missing cells and synonyms
+            k = rng.choice([0, 1, 1, 1, 1, 2, 2, 3] if nl < 10 else [0, 1, 1, 1, 1, 1, 1, 2])   # missing cells, synonyms
             cells += [(l, c)] * k
     if not cells:
         cells = [(langs[0], concs[0])]
@@ -103,6 +106,38 @@ def gen_case(rng, methods=METHODS, max_lang=5, max_conc=5):
         t2 = rng.choice(small.get(method, [F(0), F(1, 50), F(1, 20), F(1, 10), "minpos:0", "minpos:0", "minpos:1"]))
     return {"method": method, "linkage": linkage, "t1": t1, "t2": t2, "rows": rows,
             "seed": rng.randrange(1 << 30), "int_zero": int_zero}
+
+
+# (distance value d, thresholds close to d that mostly agree when printed with two decimals)
+def _around(d):
+    return [d, d + F(4, 1000), d - F(4, 1000), d + F(1, 1000), d - F(1, 1000), d - F(4, 10000), d + F(4, 10000)]
+
+
+HIST_T = {"edit-dist": [F(1, 3), F(1, 4), F(1, 2), F(2, 3), F(1, 5), F(3, 4), F(2, 5)],
+          "stub": [F(5, 16), F(1, 8), F(1, 16), F(3, 32), F(1, 4), F(1, 2)],
+          "turchin": [F(1), F(0)],
+          "sca": [F(3, 10), F(45, 100), F(1, 5), F(1, 2)]}
+
+
+def gen_history(rng, methods=("edit-dist", "stub", "turchin", "sca")):
+    """A call history on ONE LexStat object: 2-4 cluster() calls, each writing to one of two refs
+    (override=True when the column exists already), with thresholds close to an occurring
+    distance value (0.33 / 0.334 / 0.3293...: equal when rounded to two decimals) or ordinary ones.
+    The column of the call's ref is observed after EACH call."""
+    case = gen_case(rng, methods=list(methods), max_lang=4, max_conc=3)
+    method = case["method"]
+    d = rng.choice(HIST_T[method])
+    ncalls = rng.choice([2, 3, 3, 4])
+    calls = []
+    for _ in range(ncalls):
+        if rng.random() < 0.8:
+            t = rng.choice(_around(d))
+        else:
+            t = rng.choice({"turchin": T_TURCHIN, "edit-dist": T_EDIT, "stub": GRID}.get(method, T_SCA))
+        calls.append([t, rng.choice(["ha", "ha", "hb"]), rng.random() < 0.5])
+    case.pop("t1"), case.pop("t2")
+    case["calls"] = calls
+    return case
 
 
 def exhaustive_cases():
@@ -242,6 +277,8 @@ def run_impl(case):
     real = "sca" if method == "stub" or scorer_failed else method
     LexStat._distance_method = dm
     LexStat._get_matrices = gm
+    if "calls" in case:
+        return _run_history(case, lex, real, rec, mats, LexStat, orig_dm, orig_gm)
     try:
         lex.cluster(method=real, cluster_method=case["linkage"], threshold=0.5, ref="dry")
         dist = rec.pop("cur", {})
@@ -272,10 +309,22 @@ def run_impl(case):
     finally:
         LexStat._distance_method = orig_dm
         LexStat._get_matrices = orig_gm
-    oracle = method in ("sca", "lexstat", "stub")
+    mt = _model_thresholds(method, ts)
+    res = {"t": [str(t) for t in mt], "out": outs[0], "out2": outs[1]}
+    res.update(_common_result(case, lex, method, scorer_failed, dist, mats0, ts, mt))
+    return res
+
+
+def _model_thresholds(method, ts):
     # thresholds as the model receives them: the oracle matrices are floats and are compared as
     # floats with float(t); computed distances are exact quotients compared with the decimal t
-    mt = [F(float(t)) if method in ("sca", "lexstat") else t for t in ts]
+    return [F(float(t)) if method in ("sca", "lexstat") else t for t in ts]
+
+
+def _common_result(case, lex, method, scorer_failed, dist, mats0, ts, mt):
+    from lingpy.sequence.sound_classes import tokens2class
+    from lingpy.settings import rcParams
+    oracle = method in ("sca", "lexstat", "stub")
     exact = True
     if case["linkage"] == "upgma" and method in ("edit-dist", "sca", "lexstat"):
         toks = {i: w for i, _, _, w in case["rows"]}
@@ -288,13 +337,49 @@ def run_impl(case):
             for t, m in zip(ts, mt):
                 if not certify_upgma(fm, em, float(t), m):
                     exact = False
-    res = {"t": [str(t) for t in mt], "exact": exact, "out": outs[0], "out2": outs[1],
+    res = {"exact": exact,
            "dist": [[a, b, (str(F(d)) if oracle else d)] for (a, b), d in sorted(dist.items())] if oracle else [],
-           "nconcepts": len(mats0), "sizes": [len(idx) for _, idx, _ in mats0]}
+           "nconcepts": len(mats0), "sizes": [len(idx) for _, idx, _ in mats0], "oracle_ok": True}
+    if method == "sca" or (method == "lexstat" and scorer_failed):
+        # contract of the replayed oracle: the distance cluster(method='sca') uses for a pair of words is the
+        # SCA distance LexStat.align_pairs(method='sca') reports for it (a separate code path, default parameters)
+        badp = []
+        for (a, b), d in sorted(dist.items()):
+            ref = lex.align_pairs(a, b, method="sca", distance=True, return_distance=True, pprint=False)
+            if abs(ref - d) > 1e-9:
+                badp.append([a, b, d, ref])
+        res["oracle_ok"] = not badp
+        res["oracle_bad"] = badp[:5]
     if method == "turchin":
         m = rcParams["dolgo"]
         res["classes"] = {str(i): [ord(ch) for ch in tokens2class(w, m)] for i, _, _, w in case["rows"]}
         res["vowels"] = [ord(ch) for ch in m.vowels]
+    return res
+
+
+def _run_history(case, lex, real, rec, mats, LexStat, orig_dm, orig_gm):
+    method = case["method"]
+    dist, mats0, snaps = None, None, []
+    try:
+        for t, ref, override in case["calls"]:
+            del mats[:]
+            tv = 0 if (t == 0 and case.get("int_zero")) else float(t)
+            lex.cluster(method=real, cluster_method=case["linkage"], threshold=tv, ref=ref,
+                        override=bool(override or ref in lex.header))
+            d2 = rec.pop("cur", None)
+            if d2 is not None:                      # (a call may compute nothing only if it was skipped)
+                if dist is None:
+                    dist, mats0 = d2, list(mats)
+                elif d2 != dist:
+                    raise AssertionError("the word-distance function is not a function of the pair")
+            snaps.append([(int(i), int(lex[i, ref])) for i, _, _, _ in case["rows"]])
+    finally:
+        LexStat._distance_method = orig_dm
+        LexStat._get_matrices = orig_gm
+    ts = [t for t, _, _ in case["calls"]]
+    mt = _model_thresholds(method, ts)
+    res = {"calls": [[str(m), o] for m, o in zip(mt, snaps)]}
+    res.update(_common_result(case, lex, method, False, dist or {}, mats0 or [], ts, mt))
     return res
 
 
@@ -326,9 +411,17 @@ def render(case, res):
 
     def col(o):
         return L.lst([L.pair(L.nat(i), L.nat(k)) for i, k in o])
+    if "calls" in case:
+        return L.record("lex_hist_case", [
+            COQ_METH[case["linkage"]], L.b(res["exact"]), L.b(res["oracle_ok"]), wl, dist,
+            L.lst([L.pair(L.q(F(t)), col(o)) for t, o in res["calls"]])])
     return L.record("lex_case", [
-        COQ_METH[case["linkage"]], L.q(F(res["t"][0])), L.q(F(res["t"][1])), L.b(res["exact"]),
+        COQ_METH[case["linkage"]], L.q(F(res["t"][0])), L.q(F(res["t"][1])), L.b(res["exact"]), L.b(res["oracle_ok"]),
         wl, dist, col(res["out"]), col(res["out2"])])
+
+
+def case_type(case):
+    return ("lex_hist_case", "lex_hist_code") if "calls" in case else (CASE_TYPE, CODE_FN)
 
 
 BITS = {0: "correspondence: the model's id column differs from the implementation's",
@@ -337,14 +430,16 @@ BITS = {0: "correspondence: the model's id column differs from the implementatio
         3: "per-concept partition is not an outcome of threshold clustering of the concept's distance matrix "
            "(blocks within the threshold remain, or the single/complete-linkage clause fails)",
         4: "turchin consequence: sets differ from the classes of equal first-two-consonant-class keys",
-        5: "refinement (C10): two words share a cognate id at t1 but not at t2 >= t1"}
+        5: "refinement (C10): two words share a cognate id at t1 but not at t2 >= t1",
+        6: "distance oracle: the distance cluster(method='sca') used for a word pair is not the SCA distance "
+           "align_pairs(method='sca') reports for that pair"}
 
 
 def nontrivial(case, res):
     """Non-trivial: some concept with >= 3 words is split into more than one but fewer than
     its number of words cognate sets at one of the thresholds."""
     conc = {i: c for i, _, c, _ in case["rows"]}
-    for o in (res["out"], res["out2"]):
+    for o in ([o for _, o in res["calls"]] if "calls" in case else (res["out"], res["out2"])):
         per = {}
         for i, k in o:
             per.setdefault(conc[i], []).append(k)
@@ -355,7 +450,10 @@ def nontrivial(case, res):
 
 def jsonable(case, res=None):
     c = dict(case)
-    c["t1"], c["t2"] = str(case["t1"]), str(case["t2"])
+    if "calls" in case:
+        c["calls"] = [[str(t), r, o] for t, r, o in case["calls"]]
+    else:
+        c["t1"], c["t2"] = str(case["t1"]), str(case["t2"])
     if res is not None:
         c["impl"] = res
     return c
@@ -363,7 +461,11 @@ def jsonable(case, res=None):
 
 def from_json(c):
     case = dict(c)
+    if "calls" in c:
+        case["calls"] = [[F(t), r, o] for t, r, o in c["calls"]]
     for k in ("t1", "t2"):
+        if k not in c:
+            continue
         case[k] = c[k] if c[k].startswith(("entry:", "minpos:")) else F(c[k])
     case["rows"] = [[r[0], r[1], r[2], list(r[3])] for r in c["rows"]]
     case.pop("impl", None)
@@ -400,7 +502,14 @@ def shrink(case):
         if len(r[3]) > 1:
             for cut in (r[3][1:], r[3][:-1]):
                 yield with_rows(rows[:k] + [[r[0], r[1], r[2], cut]] + rows[k + 1:])
-    if case["t2"] != case["t1"]:
+    if "calls" in case:
+        calls = case["calls"]
+        if len(calls) > 1:
+            for k in range(len(calls)):
+                c = dict(case)
+                c["calls"] = calls[:k] + calls[k + 1:]
+                yield c
+    elif case["t2"] != case["t1"]:
         c = dict(case)
         c["t2"] = case["t1"]
         yield c
@@ -412,8 +521,18 @@ def classify(case, res):
            "rows<=5" if n <= 5 else "rows<=12" if n <= 12 else "rows>12",
            "concepts=%d" % res["nconcepts"],
            "exact" if res["exact"] else "upgma-not-certified"]
-    if F(res["t"][0]) == 0:
+    if "calls" in case:
+        out.append("calls=%d" % len(case["calls"]))
+        stamps = ["%s/%.2f" % (r, float(t)) for t, r, _ in case["calls"]]
+        if any(a == b and case["calls"][k][0] != case["calls"][k + 1][0]
+               for k, (a, b) in enumerate(zip(stamps, stamps[1:]))):
+            out.append("same-ref-same-2-decimals-different-threshold")
+    elif F(res["t"][0]) == 0:
         out.append("t1=0(int)" if case.get("int_zero") else "t1=0.0")
+    if len({l for _, l, _, _ in case["rows"]}) >= 10:
+        out.append("languages>=10")
+    if not res.get("oracle_ok", True):
+        out.append("oracle-contract-violated")
     if any(s >= 2 for s in res["sizes"]):
         out.append("has-multiword-concept")
     cells = {}
